@@ -691,6 +691,72 @@ pub fn build(seed: u64, size: usize) -> Pool {
         let (t, p) = (lon.to_radians(), (90.0 - lat).to_radians());
         (F::of(p.sin() * t.cos()), F::of(p.sin() * t.sin()), F::of(p.cos()))
     };
+    // (k) ladders: one point at every resolution; one cell and its whole chain of ancestors;
+    //     mirror images and 360-degree aliases of one point
+    for _ in 0..n(16) {
+        fam += 1;
+        let (lon, lat) = random_lonlat(&mut rng);
+        let step = rng.range(1, 3) as usize;
+        for r in (-1..=29).step_by(step) {
+            pushf(&mut ops, Op::LonLatToCell { lon: F::of(lon), lat: F::of(lat), res: r }, 255, fam);
+        }
+        let r0 = rng.range(3, 25) as i32;
+        for (l2, b2) in [(-lon, lat), (lon, -lat), (lon + 360.0, lat), (lon - 360.0, lat), (lon + 720.0, lat), (lon, lat + 1e-9)] {
+            pushf(&mut ops, Op::LonLatToCell { lon: F::of(l2), lat: F::of(b2.clamp(-90.0, 90.0)), res: r0 }, 255, fam);
+        }
+        if let Ok(c) = a5::lonlat_to_cell(LonLat::new(lon, lat), 29) {
+            fam += 1;
+            let g = (c >> 58) as u8 / 5;
+            for r in (-1..=29).rev().step_by(step) {
+                pushf(&mut ops, Op::CellToParent { cell: c, res: Some(r) }, g, fam);
+                if let Ok(p) = a5::cell_to_parent(c, Some(r)) {
+                    if rng.pct(40) {
+                        pushf(&mut ops, Op::CellToLonLat { cell: p }, g, fam);
+                    }
+                    if rng.pct(25) {
+                        pushf(&mut ops, Op::GetResolution { cell: p }, g, fam);
+                        pushf(&mut ops, Op::CellToChildren { cell: p, res: None }, g, fam);
+                    }
+                }
+            }
+        }
+    }
+    // (l) one number in several spellings; metadata of every resolution; one projection call on
+    //     every kind of receiver
+    {
+        fam += 1;
+        for v in [255u64, 0xdeadbeef, 1 << 63, rng.next_u64()] {
+            let h = format!("{:x}", v);
+            for s in [h.clone(), h.to_uppercase(), format!("00{}", h), format!("{:0>16}", h), format!("0x{}", h), format!("+{}", h), format!(" {}", h)] {
+                let poison = u64::from_str_radix(&s, 16).is_err();
+                ops.push(PoolOp { op: Op::HexToU64 { s }, group: 255, poison: if poison { Some("hex_string".into()) } else { None }, cheap: false, family: fam });
+            }
+            pushf(&mut ops, Op::U64ToHex { v }, 255, fam);
+        }
+        fam += 1;
+        for r in -1..=30 {
+            pushf(&mut ops, Op::CellArea { res: r }, 255, fam);
+            pushf(&mut ops, Op::GetNumCells { res: r }, 255, fam);
+            if r >= 0 && r % 3 == 0 {
+                pushf(&mut ops, Op::SerialLow { cell: 0, res: r, res2: r + 2 }, 255, fam);
+            }
+        }
+        for _ in 0..n(12) {
+            fam += 1;
+            let origin = rng.below(12) as u8;
+            let tri = rng.below(10) as usize;
+            let refl = rng.pct(40);
+            let (x, y) = slot_face_point(&mut rng, tri, refl);
+            for t in [Target::Tl, Target::Fresh, Target::Inst(0), Target::Inst(1), Target::Inst(2)] {
+                pushf(&mut ops, Op::Inverse { t, x: F::of(x), y: F::of(y), origin }, origin, fam);
+            }
+            if let Ok(sp) = fresh.inverse(Face::new(x, y), origin) {
+                for t in [Target::Tl, Target::Fresh, Target::Inst(0), Target::Inst(1)] {
+                    pushf(&mut ops, Op::Forward { t, theta: F::of(sp.theta().get()), phi: F::of(sp.phi().get()), origin }, origin, fam);
+                }
+            }
+        }
+    }
     // (j) list-valued arguments: the same elements in another order, rotated, reversed, with a
     //     repeated closing element (an order-insensitive key or hash would confuse them)
     for _ in 0..n(16) {
